@@ -365,6 +365,27 @@ def _regs_of(it):
     return "+".join(sorted({sub[1] for sub in subterms(it) if isinstance(sub, tuple) and sub[:1] in (("regtop",), ("reg",))})) or "?"
 
 
+def refined_interval(v, facts):
+    """interval(v), with 0 excluded when the path has tested v against 0."""
+    iv = interval(v)
+    if iv is None:
+        return None
+    zero = ("const", 0)
+    if iv[0] == 0 and (facts.get(("truthy", v)) is True or facts.get(("cmp", "==", v, zero)) is False
+                       or facts.get(("cmp", "!=", v, zero)) is True or facts.get(("cmp", "==", zero, v)) is False
+                       or facts.get(("cmp", "!=", zero, v)) is True or facts.get(("cmp", ">", v, zero)) is True
+                       or facts.get(("cmp", ">=", v, ("const", 1))) is True):
+        iv = (1, iv[1])
+    return iv
+
+
+def _surely_entered(lp):
+    """for _ in range(K) with a constant K >= 1 runs its body at least once."""
+    it = lp.a.get("iter")
+    return isinstance(it, tuple) and it[:2] == ("call", ("builtin", "range")) and len(it[2]) == 1 and is_const(it[2][0]) \
+        and isinstance(it[2][0][1], int) and it[2][0][1] >= 1
+
+
 def loopvar_interval(tr, inner):
     """Interval of a local that a loop modifies (term ('unk', 'name@loopN')): hull of the value it has at the end of every
     iteration (each refined by the facts of that iteration: tested non-zero -> at least 1), and of its value before the loop
@@ -380,17 +401,11 @@ def loopvar_interval(tr, inner):
         if bp.exit_kind() == "raise" or bp.st is None:
             continue
         v = bp.st.env.get(name)
-        iv = interval(v)
+        iv = refined_interval(v, bp.st.facts)
         if iv is None:
             return None
-        zero = ("const", 0)
-        if iv[0] == 0 and (bp.st.facts.get(("truthy", v)) is True or bp.st.facts.get(("cmp", "==", v, zero)) is False
-                           or bp.st.facts.get(("cmp", "!=", v, zero)) is True or bp.st.facts.get(("cmp", "==", zero, v)) is False
-                           or bp.st.facts.get(("cmp", "!=", zero, v)) is True or bp.st.facts.get(("cmp", ">", v, zero)) is True
-                           or bp.st.facts.get(("cmp", ">=", v, ("const", 1))) is True):
-            iv = (1, iv[1])
         vals.append(iv)
-    if lp.a.get("enters") is not True:
+    if lp.a.get("enters") is not True and not _surely_entered(lp):
         iv = interval((lp.a.get("pre") or {}).get(name))
         if iv is None:
             return None
@@ -421,7 +436,17 @@ def counter_interval(tr, e, fq, field):
                         last = y
                 if last is None:
                     continue
-                iv = interval(last.a["val"])
+                # the tests that stood when the value was stored (the store itself outdates path facts that mention the field)
+                at_store = {}
+                for c in last.conds:
+                    t, pol = c.term, c.pol
+                    while isinstance(t, tuple) and t and t[0] == "not":
+                        t, pol = t[1], not pol
+                    if isinstance(t, tuple) and t and t[0] == "cmp":
+                        at_store[t] = pol
+                    elif isinstance(t, tuple):
+                        at_store[("truthy", t)] = pol
+                iv = refined_interval(last.a["val"], at_store)
                 if iv is None:
                     return None
                 found = True
